@@ -181,6 +181,10 @@ def run(ctx):
     ctx.validated = native
     rp.close()
     version_word(ctx, q, mf, registry)
+    set_version_step(ctx, q, mf, ms, registry, fields)
+    # what is emitted: the header, then every section in logical-layout order, then the functions (nothing skipped) -- C01's lemma 3
+    import c01
+    c01.emission_order_lemma(ctx, registry, mf)
     ctx.extra["states"] = checked
     ctx.extra["transitions"] = checked
     ctx.extra["native_calls"] = native
@@ -415,6 +419,75 @@ def check_native(real, name, sig, entry, kn, qn, variant_of_kind, terminators, o
     if nums != sorted(nums):
         return "operands carry the arguments out of order: %s" % inst["operands"]
     return None
+
+
+def set_version_step(ctx, q, mf, ms, registry, fields):
+    """`Builder::set_version(M, m)` from MIR on a builder without a header and on one whose module already has an ARBITRARY
+    header (an earlier set_version, or `new_from_module`): afterwards the header exists, its version word is 0x00MMmm00
+    for every (M, m), and an existing header keeps its other fields. (One step from any state: the version of the built
+    module is the one of the LAST call.)"""
+    hf = c05.struct_fields("rspirv/dr/constructs.rs", "ModuleHeader")
+    c = [x for x in mf.find("set_version") if "dr/build/" in x[0] and "closure" not in x[0]]
+    if len(c) != 1 or "version" not in hf:
+        ctx.ob("set_version/encodable", None, "%d candidates, header fields %s" % (len(c), hf))
+        return
+    fn = mf.parse_item(c[0][2])
+    M, m_ = z3.BitVec("major", 8), z3.BitVec("minor", 8)
+    nid = z3.BitVec("next_id", 32)
+    bidx = {n: i for i, n in enumerate(fields["Builder"])}
+    hidx = fields["Module"].index("header")
+    for have in (False, True):
+        b0 = base.make_state((0, 0, 0, 0), None, None, nid, fields)
+        old = {n: z3.BitVec("old_" + n, 32) for n in hf}
+        if have:
+            mod = b0.fields[bidx["module"]]
+            mf_ = list(mod.fields)
+            mf_[hidx] = base.some(sym.Adt("constructs::ModuleHeader", None, [old[n] for n in hf]))
+            bf = list(b0.fields)
+            bf[bidx["module"]] = sym.Adt(mod.ty, None, mf_)
+            b0 = sym.Adt(b0.ty, None, bf)
+        eng = sym.Engine([mf, ms], registry, models=base.MODELS + bsweep.EXTRA_MODELS, eager=True, loop_bound=4)
+        tag = "set_version/%s" % ("existing-header" if have else "no-header")
+        try:
+            res = eng.run(fn, [sym.Ref(("h", "b"), (), True), M, m_], mem={("h", "b"): b0})
+        except mir.Unsupported as ex:
+            ctx.ob(tag, None, "not encodable: %s" % str(ex)[:300])
+            continue
+        ctx.functions.update(eng.stats.functions)
+        good = True
+        why = None
+        for r in res:
+            if r.status != "return":
+                st, mm = q.check(r.pc, "set-version-panic")
+                if st != "unsat":
+                    good, why = False, "panics: %s" % (r.info,)
+                continue
+            h1 = r.mem[("h", "b")].fields[bidx["module"]].fields[hidx]
+            if not (isinstance(h1, sym.Adt) and h1.variant == "Some"):
+                good, why = False, "no header afterwards"
+                continue
+            hv = h1.fields[0]
+            conds = [hv.fields[hf.index("version")] != z3.Concat(z3.BitVecVal(0, 8), M, m_, z3.BitVecVal(0, 8))]
+            if have:
+                conds += [hv.fields[hf.index(n)] != old[n] for n in hf if n != "version"]
+            st, mm = q.check(list(r.pc) + [z3.Or(*conds)], "set-version")
+            if st != "unsat":
+                good, why = False, "the header afterwards does not carry version %s.%s (or another field changed)" % (
+                    mm.eval(M, model_completion=True) if mm is not None else "?", mm.eval(m_, model_completion=True) if mm is not None else "?")
+        if good:
+            ctx.ob(tag, True)
+            continue
+        rp = Replay()
+        real = rp.ask("builder_set_version %d" % (1 if have else 0))
+        rp.close()
+        if real.get("version") == [1, 5] and "panic" not in real:
+            ctx.ob(tag, None, "model-only deviation (%s); the compiled crate answers %s" % (why, real))
+            continue
+        ctx.ob(tag, False, "%s; native: %s" % (why, real))
+        ctx.violation("builder/set_version/%s" % ("ignored-on-existing-header" if have else "no-header"),
+                      "Builder::set_version(1, 5) on a builder %s: %s; the compiled crate reports version %s in the built module" % (
+                          "whose module already has a header (version 1.0)" if have else "without a header", why, real.get("version")),
+                      {"cmd": "builder_set_version %d" % (1 if have else 0), "real": real})
 
 
 def version_word(ctx, q, mf, registry):
